@@ -41,6 +41,18 @@ for cps in job['strings']:
         rec['attr_raw'] = txt[i: txt.index('"', i)]
     except Exception as ex:
         rec['attr_exc'] = type(ex).__name__
+    # the same text three levels down: serialised alone, inside its parent, inside its grandparent - always recovered
+    try:
+        m = XMLMeasure(number='1'); dd = m.add_child(XMLDirection()); tt = dd.add_child(XMLDirectionType()); ww = tt.add_child(XMLWords(s))
+        got = []
+        for node, path in ((ww, '.'), (tt, 'words'), (dd, 'direction-type/words'), (m, 'direction/direction-type/words')):
+            el = ET.fromstring(node.to_string())
+            got.append((el if path == '.' else el.find(path)).text or '')
+        rec['nested_ok'] = all(g == s for g in got)
+        if not rec['nested_ok']:
+            rec['nested_got'] = got
+    except Exception as ex:
+        rec['nested_exc'] = type(ex).__name__
     out['strings'].append(rec)
 
 
